@@ -23,6 +23,11 @@ def cases(draw, tier):
         if allif:
             kind = "ifchange"
         ts = sgen._subset(draw, allt, 1, 3)
+        if draw(st.integers(0, 99)) < 20:
+            # the same target once more under another spelling (./t, or the absolute path: "@abs/t" is filled in when
+            # the scratch directory is known): still one lock and one build
+            dup = ts[draw(st.integers(0, len(ts) - 1))]
+            ts.insert(draw(st.integers(0, len(ts))), ("./" if draw(st.integers(0, 1)) else "@abs/") + dup)
         env = {"REDO_LOG": "0"} if draw(st.integers(0, 2)) else {}
         if draw(st.integers(0, 3)) == 0:
             env["REDO_KEEP_GOING"] = "1"
@@ -91,6 +96,11 @@ def run_case(case, tier):
     out = hist.Outcome()
     r = Runner(case, tag="c06")
     try:
+        for inv in r.invs:
+            if any(a.startswith("@abs/") for a in inv.spec["argv"]):
+                inv.spec["argv"] = [os.path.join(r.disk.root, a[5:]) if a.startswith("@abs/") else a
+                                    for a in inv.spec["argv"]]
+                out.events["c06:target-named-twice-(absolute-and-relative)-on-one-command-line"] += 1
         if case.get("prebuild"):
             # a complete serial build first, then the common source is edited: the contended commands are REBUILDS
             # (maybe-dirty targets above checksummed ones take the out-of-band path through redo-unlocked)
@@ -115,6 +125,15 @@ def run_case(case, tier):
         if getattr(r, "deadline_hit", False):
             raise runner.Inconclusive("deadline")
         texts = [r.inv_text(i) for i in r.invs]
+        if r.tl.overlaps:
+            # (this property's own violation first: a redo that aborts and leaves its script running is ALSO C09's)
+            out.nontrivial = True
+            out.violation = {"property": "C06", "clause": "overlapping-executions", "step": 0,
+                             "detail": {"invs": [i.spec["argv"] for i in r.invs], "rcs": [i.rc for i in r.invs],
+                                        "overlaps": r.tl.overlaps[:5], "texts": [t[-800:] for t in texts],
+                                        "decisions": r.tl.decisions[-40:]},
+                             "sig": {"symptom": "overlap", "signalled": bool(r.aborted)}}
+            return out
         for inv, text in zip(r.invs, texts):
             mb = BAD.search(text)
             if (inv.rc == 101 or (mb and "panicked" in mb.group(0))) and not inv.signalled:
